@@ -96,7 +96,10 @@ def _mk(case):
                 return "done"
 
             body.__name__ = "F%d" % fid
-            fns[fid] = icontract.require(cond, error=ValueError("violation"))(body)
+            # every call also captures a per-call snapshot and checks it against the very call afterwards
+            g = icontract.ensure(lambda spec, OLD: OLD.tag is spec, error=ValueError("violation: OLD belongs to another call"))(body)
+            g = icontract.snapshot(lambda spec: spec, name="tag")(g)
+            fns[fid] = icontract.require(cond, error=ValueError("violation"))(g)
         else:
             def cond(spec, fid=fid):
                 for _ in range(spec["condYields"]):
@@ -109,7 +112,9 @@ def _mk(case):
                 return "done"
 
             body.__name__ = "F%d" % fid
-            fns[fid] = icontract.require(cond, error=ValueError("violation"))(body)
+            g = icontract.ensure(lambda spec, OLD: OLD.tag is spec, error=ValueError("violation: OLD belongs to another call"))(body)
+            g = icontract.snapshot(lambda spec: spec, name="tag")(g)
+            fns[fid] = icontract.require(cond, error=ValueError("violation"))(g)
     return fns, state
 
 
